@@ -28,6 +28,7 @@ SELFTEST_MAP = {
     "f64_parse_unnormalised.patch": ["C10"],
     "eval_zbdd_counter_not_decremented.patch": ["C02", "C09"],
     "eval_bdd_choice_polarity.patch": ["C02"],
+    "bcdd_cofactors_iter_keeps_tag.patch": ["C02"],
     "pointer_handle_wrong_data_type.patch": ["C05", "C20"],
     "dddmp_unchecked_index.patch": ["C15"],
     "dddmp_unchecked_sub.patch": ["C15"],
